@@ -332,8 +332,8 @@ class C12(Prop):
                 for o in nodes:
                     if o._ufl_is_terminal_:
                         s = c12lib.cser(o, memo)
-                        if s.startswith("(TP FloatValue"):
-                            continue      # a float literal whose repr is a rounded decimal travels as an opaque string (see cser)
+                        if s.startswith("(TP FloatValue") or s.startswith("(TP ComplexValue"):
+                            continue      # a float literal whose repr is a rounded decimal / a complex literal travels as an opaque string (see cser)
                         if s not in seen_t and len(seen_t) < (400 if ctx.quick else 4000):
                             seen_t.add(s)
                             treqs.append("(toexpr %s %s)" % (s, uflio.ser(o, memo2)))
